@@ -5,7 +5,10 @@ step, including refused steps.  check_impl: the final result equals the one-shot
 concatenation, and bitcnt after every non-final piece is the number of bits fed so far.  Pieces may carry their bit
 length (`upd <hex> <L>`, `fin <hex> <L>`: the first L bits of the buffer count, L = 0 on a non-empty buffer included) and
 a line may re-initialise the object (`init` = h.initstate()) after an abandoned / finished / refused stream: the run after
-the last `init` is compared with the one-shot call of a FRESH object, the bit counter right after `init` must be 0."""
+the last `init` is compared with the one-shot call of a FRESH object, the bit counter right after `init` must be 0.
+`hashseqs <alg0>,<alg1>,… | <k> new | <k> <step> | env <name> | …` lines keep SEVERAL objects alive (hashcommon.run_multi): the
+steps of object k, taken alone, must satisfy the same predicate whatever the other objects and the library do in between.  In
+Lean the objects are values in a list (Model.Multi): there siblings cannot interfere by construction."""
 import itertools
 from props.common import *
 from props import hashcommon as HC
@@ -17,7 +20,15 @@ TRUSTED = []
 RULE = ('`hashseq` pieces with explicit bit lengths: a message streamed through one reused buffer of 1-2 blocks (every piece = the whole '
         'buffer + its valid bits; 0 bits of a non-empty buffer at the end / on an empty read), L = 0 on data and L = 8n of a longer '
         'buffer on final and non-final pieces; histories `… | init | upd* fin` after 1..3 abandoned blocks, a finished or a refused '
-        'stream (bit counter observed after init)')
+        'stream (bit counter observed after init), or a complete earlier life of the object (one-shot calls plain / with the optional bit '
+        'length / refused, a finished stream, a step refused after the final one, several in a row); `hashseqs <algs> | <k> new | <k> step | '
+        'env <name>`: SEVERAL objects alive in one line — a second object of the same class or of another class with the same block '
+        'geometry (SHA-1/SHA-256/SHA-224/SHA-0, SHA-512/SHA-384/SHA-512-t, MD4/MD5, MD5/SHA-1) constructed, initialised, fed, called, '
+        'finished, refused or re-initialised BETWEEN two pieces, two and three complete streams interleaved piece by piece (fixed and '
+        'random interleavings), library activity on no object of the line (other hash objects, HMAC, Blake/Blake2 objects and singletons) '
+        'between two pieces; every stream compared with its own one-shot call on a fresh object and the standard digest of its own pieces. '
+        'The Lean objects are values in a list (Model.Multi; Proofs.C14.siblings_do_not_interfere): siblings cannot interfere there by '
+        'construction, the lines test that the Python objects share no counter / padding object')
 ASSUMPTIONS = ['padmethod.bitcnt after the FINAL piece is 0 when the padding spilled into an extra block (C09: zero for a pad-only block): compared code<->model only']
 
 run_impl = HC.run_impl
